@@ -1,4 +1,5 @@
 import Chess.Lemmas.Reach
+import Chess.Lemmas.SearchF
 
 /-!
 # C07 — a stop request at any moment still yields a legal move
@@ -46,9 +47,32 @@ example (g : Game) (tt : Table Move) (h : (g.getMoves true).1 ≠ []) :
     (driver Uci.chessOps (fun _ => false) g tt false none).found.isSome :=
   stop_anytime_still_a_move Uci.chessOps _ g tt false none h
 
+
+/-! ### The faithful model (`driverF`) -/
+open Chess.Search.F in
+/-- **C07.5** The same for the model that keeps the aborted iteration's table: a move whenever one
+exists; the abort happens at the first cleared poll and the poll counter of the returned state IS
+that index (nothing polled afterwards). -/
+theorem faithful_stop_anytime (o : Ops G M) (runs : Nat → Bool) (g : G) (tt : Table M)
+    (off : Bool) (md : Option Nat) :
+    (o.checked g ≠ [] → (driverF o runs g tt off md).found.isSome) ∧
+    ((driverF o runs g tt off md).stopped = true → runs (driverF o runs g tt off md).st.polls = false) ∧
+    (∀ i, i < (driverF o runs g tt off md).st.polls → runs i = true) :=
+  ⟨driverF_found_of_moves o runs g tt off md, (driverF_stop_semantics o runs g tt off md).2.1,
+    (driverF_stop_semantics o runs g tt off md).2.2⟩
+
+open Chess.Search.F in
+theorem faithful_abort_at_first_cleared_poll (o : Ops G M) (runs : Nat → Bool) (remaining : Nat) (g : G)
+    (α β rd : Int) (st : St M) (h : (nodeF o runs remaining g α β rd st).2 = none) :
+    ∃ i, st.polls ≤ i ∧ runs i = false ∧ (∀ j, st.polls ≤ j → j < i → runs j = true) ∧
+      (nodeF o runs remaining g α β rd st).1.polls = i :=
+  nodeF_abort_first_cleared o runs remaining g α β rd st h
+
 end Chess.Props.C07
 
 #print axioms Chess.Props.C07.stop_anytime_still_a_move
 #print axioms Chess.Props.C07.stop_anytime_move_legal
 #print axioms Chess.Props.C07.abort_at_first_cleared_poll
 #print axioms Chess.Props.C07.answered_means_never_stopped
+#print axioms Chess.Props.C07.faithful_stop_anytime
+#print axioms Chess.Props.C07.faithful_abort_at_first_cleared_poll
